@@ -711,6 +711,17 @@ func (g *Gen) stat() {
 			g.exp(ed)
 		}
 	case k < 11: // call statement
+		if len(g.cfg.GlobalPool) > 0 && g.r.Chance(1, 8) {
+			// a field of a global table, and on the next line - about the same columns - a use of a variable that has
+			// the field's name
+			if vis := g.visible(); len(vis) > 0 {
+				nm := vis[g.r.Intn(len(vis))]
+				g.emit(g.r.Pick(g.cfg.GlobalPool), ".", nm, "=")
+				g.emit(g.literal())
+				g.emit(NL, g.r.Pick([]string{"print", "tostring", "type"}), "(", nm, ")")
+				break
+			}
+		}
 		if len(g.knownFuncs) > 0 && g.r.Chance(1, 3) {
 			// a call of a function defined earlier in this chunk, with fewer, as many, or more arguments than it has
 			// named parameters
